@@ -46,7 +46,7 @@ def hexs(s):
 # case generation
 
 OPTS_ALL = ["".join(p) for p in itertools.product("01", repeat=5)]          # hp, rp, cb, bsx, sf
-SHAPE_FLAGS_LE = ["un", "u", "n", "", "unc", "unw", "uns", "unsc", "unsp", "unsq", "unt", "unts", "unm", "unsm", "una", "une", "unsae", "uc",
+SHAPE_FLAGS_LE = ["un", "u", "n", "", "unc", "unw", "uns", "unsc", "unsp", "unsq", "unt", "unts", "unT", "unTs", "unm", "unsm", "una", "une", "unsae", "uc",
                   "unsfr", "unsfR", "unsr", "unsR", "unscfR", "unsfrp"]
 SHAPE_FLAGS_SE = ["un", "u", "n", "", "unc", "unw", "uns", "unsc", "unsd", "unm", "unsm", "una", "une", "unh", "unhs", "unhsd", "uc"]
 
@@ -350,6 +350,14 @@ def evaluate_pipeline(case, d):
         if hierarchy(a) != hierarchy(b):
             fails.append(("%s: node hierarchy differs" % label, {"before": hierarchy(a)[:8], "after": hierarchy(b)[:8]}))
 
+    # strip shapes built by the generator: what the library decodes from the strips must be the triangles that were
+    # encoded (same corners, same winding), before any conversion - the generator's list is the ground truth
+    for nm, flat in (st["orig"].get("gen_tris") or {}).items():
+        want_t = tri_set(flat)
+        for s in orig["shapes"]:
+            if s["name"] == nm and s.get("type") == "NiTriStrips" and tri_set(s["tris"]) != want_t:
+                fails.append(("strip shape: the decoded triangles are not the encoded ones (corners or winding)",
+                              {"shape": nm, "decoded": tri_set(s["tris"])[:6], "encoded": want_t[:6]}))
     check_pair("orig", "conv0", "conversion", False)
     dup = sibling_dupes(st["conv0"]["d"])
     if dup:
